@@ -20,6 +20,7 @@ import (
 	endpointcontract "github.com/teleport-network/teleport/syscontracts/xibc_endpoint"
 	packetcontract "github.com/teleport-network/teleport/syscontracts/xibc_packet"
 	xibctmtypes "github.com/teleport-network/teleport/x/xibc/clients/light-clients/tendermint/types"
+	tsstypes "github.com/teleport-network/teleport/x/xibc/clients/tss-client/types"
 	clienttypes "github.com/teleport-network/teleport/x/xibc/core/client/types"
 	commitmenttypes "github.com/teleport-network/teleport/x/xibc/core/commitment/types"
 	"github.com/teleport-network/teleport/x/xibc/core/host"
@@ -150,6 +151,27 @@ func NewWorldAccts(names []string, acctsOf func(string) []Acct) *World {
 		c.App.XIBCKeeper.ClientKeeper.RegisterRelayers(c.Ctx(), c.Accts[AcctRelayer].Acc.String(), chains, addrs)
 	}
 	return w
+}
+
+// Retoggle: governance replaces chain cn's client of dn by a TSS client and then by a fresh Tendermint client at dn's
+// last committed header (two ToggleClient proposals through the routed handler).
+func (w *World) Retoggle(cn, dn string) (string, string) {
+	c, d := w.Chains[cn], w.Chains[dn]
+	tss := &tsstypes.ClientState{TssAddress: c.Accts[AcctOutside].Acc.String(), Pubkey: []byte{1, 2, 3}, PartPubkeys: [][]byte{{4}, {5}}, Threshold: 2}
+	p1, err := clienttypes.NewToggleClientProposal("t", "d", d.ChainID, tss, &tsstypes.ConsensusState{})
+	must(err)
+	if res, msg := c.ExecProposal(p1); res != "ok" {
+		return "err", "toggle to tss: " + msg
+	}
+	h := d.LastHdr
+	cs := xibctmtypes.NewClientState(d.ChainID, xibctmtypes.DefaultTrustLevel, 14*24*time.Hour, 21*24*time.Hour, time.Hour,
+		h.GetHeight().(clienttypes.Height), commitmenttypes.GetSDKSpecs(), commitmenttypes.MerklePrefix{KeyPrefix: []byte("xibc")}, 0)
+	p2, err := clienttypes.NewToggleClientProposal("t", "d", d.ChainID, cs, h.ConsensusState())
+	must(err)
+	if res, msg := c.ExecProposal(p2); res != "ok" {
+		return "err", "toggle to tendermint: " + msg
+	}
+	return "ok", ""
 }
 
 func addrp(a common.Address) *common.Address { return &a }
